@@ -122,6 +122,8 @@ fn dispatch(program_id: &Pubkey, accounts: &[AccountInfo], data: &[u8]) -> Progr
         wrapper_process(accounts, data)
     } else if *program_id == crate::venue::drift::DRIFT {
         crate::venue::drift::process(accounts, data)
+    } else if *program_id == crate::venue::solend::SOLEND {
+        crate::venue::solend::process(accounts, data)
     } else if *program_id == crate::venue::KAMINO {
         // stand-in venue (environment): see venue.rs
         crate::venue::process(accounts, data)
